@@ -267,6 +267,30 @@ func inDomain(id object.ObjMetadata) bool {
 	return isDNS(id.Namespace, true) && isDNS(id.GroupKind.Group, true) && isDNS(id.GroupKind.Kind, false) && isPathSegment(id.Name)
 }
 
+// encodable: the reference can be written as a depends-on string and read
+// back (computed from the fields alone, independently of the codec): kind and
+// name not empty, no field contains '/' or ',', and TrimSpace would not touch
+// either end (group not starting, name not ending with white space).
+func encodable(id object.ObjMetadata) bool {
+	if id.GroupKind.Kind == "" || id.Name == "" {
+		return false
+	}
+	if strings.ContainsAny(id.Namespace+id.Name+id.GroupKind.Group+id.GroupKind.Kind, "/,") {
+		return false
+	}
+	edge := id.GroupKind.Group + "/" + id.Name
+	return strings.TrimSpace(edge) == edge
+}
+
+func allEncodable(ids []object.ObjMetadata) bool {
+	for _, id := range ids {
+		if !encodable(id) {
+			return false
+		}
+	}
+	return true
+}
+
 // depClass names the input class of a depends-on case (used by known findings):
 // ws-edge = the formatted reference starts or ends with white space (group
 // with leading, name with trailing white space) so that TrimSpace changes it;
@@ -559,7 +583,8 @@ func storeCase(prior any, steps []step) (term, text string) {
 	return emit.App("CStore", priorT, resOids(pl, plerr), emit.List(ts)), "STORE " + strings.Join(txt, " ; ")
 }
 
-func depCase(strict bool, id object.ObjMetadata, pl, pr string) (term, text string) {
+func depCase(id object.ObjMetadata, pl, pr string) (term, text string) {
+	enc := encodable(id)
 	beginCase()
 	defer func() { term = endCase(term) }()
 	f, ferr := dependson.FormatObjMetadata(id)
@@ -568,8 +593,8 @@ func depCase(strict bool, id object.ObjMetadata, pl, pr string) (term, text stri
 	if ferr == nil {
 		p, perr = dependson.ParseObjMetadata(pl + f + pr)
 	}
-	term = emit.App("CDep", emit.Bool(strict), oid(id), str(pl), str(pr), resStr(f, ferr), resOid(p, perr))
-	text = fmt.Sprintf("DEP cls=%s strict=%v id=%s pad=%q/%q fmt=%q(%s) parsed=%s %s", depClass([]object.ObjMetadata{id}, false), strict, short(id), pl, pr, f, errS(ferr), errS(perr), short(p))
+	term = emit.App("CDep", emit.Bool(enc), oid(id), str(pl), str(pr), resStr(f, ferr), resOid(p, perr))
+	text = fmt.Sprintf("DEP cls=%s enc=%v id=%s pad=%q/%q fmt=%q(%s) parsed=%s %s", depClass([]object.ObjMetadata{id}, false), enc, short(id), pl, pr, f, errS(ferr), errS(perr), short(p))
 	return
 }
 
@@ -593,7 +618,7 @@ type padded struct {
 	pr string
 }
 
-func depSetCase(strict bool, l []padded) (term, text string) {
+func depSetCase(l []padded) (term, text string) {
 	beginCase()
 	defer func() { term = endCase(term) }()
 	var pieces []string
@@ -633,8 +658,8 @@ func depSetCase(strict bool, l []padded) (term, text string) {
 	for _, x := range l {
 		lt = append(lt, "("+str(x.pl)+", "+oid(x.id)+", "+str(x.pr)+")")
 	}
-	term = emit.App("CDepSet", emit.Bool(strict), emit.List(lt), resStr(joined, ferr), resOids(parsed, perr))
-	text = fmt.Sprintf("DEPSET cls=%s strict=%v ids=%s fmt=%q(%s) parsed=%s %s", depClass(ids, true), strict, shorts(ids), joined, errS(ferr), errS(perr), shorts(parsed))
+	term = emit.App("CDepSet", emit.Bool(allEncodable(ids)), emit.List(lt), resStr(joined, ferr), resOids(parsed, perr))
+	text = fmt.Sprintf("DEPSET cls=%s enc=%v ids=%s fmt=%q(%s) parsed=%s %s", depClass(ids, true), allEncodable(ids), shorts(ids), joined, errS(ferr), errS(perr), shorts(parsed))
 	return
 }
 
@@ -657,7 +682,7 @@ func depSetParseCase(s string) (term, text string) {
 	return
 }
 
-func annotCase(strict bool, ids []object.ObjMetadata) (term, text string) {
+func annotCase(ids []object.ObjMetadata) (term, text string) {
 	beginCase()
 	defer func() { term = endCase(term) }()
 	u := &unstructured.Unstructured{Object: map[string]any{"apiVersion": "v1", "kind": "ConfigMap", "metadata": map[string]any{"name": "x"}}}
@@ -672,8 +697,8 @@ func annotCase(strict bool, ids []object.ObjMetadata) (term, text string) {
 	if werr == nil {
 		read, rerr = dependson.ReadAnnotation(u)
 	}
-	term = emit.App("CAnnot", emit.Bool(strict), oids(ids), resStr(val, werr), resOids(read, rerr), resOids(absent, aerr))
-	text = fmt.Sprintf("ANNOT cls=%s strict=%v ids=%s write=%q(%s) read=%s %s", depClass(ids, true), strict, shorts(ids), val, errS(werr), errS(rerr), shorts(read))
+	term = emit.App("CAnnot", emit.Bool(allEncodable(ids)), oids(ids), resStr(val, werr), resOids(read, rerr), resOids(absent, aerr))
+	text = fmt.Sprintf("ANNOT cls=%s enc=%v ids=%s write=%q(%s) read=%s %s", depClass(ids, true), allEncodable(ids), shorts(ids), val, errS(werr), errS(rerr), shorts(read))
 	return
 }
 
@@ -870,13 +895,23 @@ func Run(seed int64, tier, outDir string) (*emit.Summary, error) {
 	// ---- 3. depends-on ---------------------------------------------------------------
 	depsh := o.newShard("dep", "check_dep")
 	addDep := func(term, text string, kind string) error { return depsh.add(term, text, true, kind) }
-	// fixed corpus: the open findings first, so that every run reproduces them
+	// fixed corpus: the former defect witnesses first (fixed by f7dcdbb), so that a regression is reported again
 	{
-		term, text := depCase(true, cr("a "), "", "")
+		term, text := depCase(cr("a "), "", "")
 		if err := addDep(term, text, "dep:corpus"); err != nil {
 			return nil, err
 		}
-		term, text = depSetCase(true, []padded{{"", cr("a,b"), ""}})
+		for _, w := range []object.ObjMetadata{cr("a\u00a0"), cr("a,b"), mk("", "x/y/z", "g", "namespaces"), mk(",a", "n", "g", "k"), mk("ns", "n", " g", "k")} {
+			term, text = depCase(w, "", "")
+			if err := addDep(term, text, "dep:corpus"); err != nil {
+				return nil, err
+			}
+			term, text = annotCase([]object.ObjMetadata{cr("ok"), w})
+			if err := addDep(term, text, "dep:corpus"); err != nil {
+				return nil, err
+			}
+		}
+		term, text = depSetCase([]padded{{"", cr("a,b"), ""}})
 		if err := addDep(term, text, "dep:corpus"); err != nil {
 			return nil, err
 		}
@@ -886,7 +921,7 @@ func Run(seed int64, tier, outDir string) (*emit.Summary, error) {
 				return nil, err
 			}
 		}
-		term, text = annotCase(true, nil)
+		term, text = annotCase(nil)
 		if err := addDep(term, text, "dep:corpus"); err != nil {
 			return nil, err
 		}
@@ -894,20 +929,23 @@ func Run(seed int64, tier, outDir string) (*emit.Summary, error) {
 	fixedDeps := []string{"", " ", "a", "a/b", "a/b/c", "a/b/c/d", "a/b/c/d/e", "a/b/c/d/e/f", "/k/n", " /k/n ", "g/namespaces/ns/k/n",
 		"g/Namespaces/ns/k/n", "g/namespaces/ns/k", " g/k/n ", "g/k/n,", "\tapps/namespaces/default/Deployment/x\n", "g/k/n\xe2\x80\x80\x80"}
 	for i := 0; i < nDep; i++ {
-		// Format -> Parse of ids in the domain (strict) and of arbitrary ids (error-or-exact)
-		strict := r.Intn(3) > 0
+		// Format -> Parse of ids in the quantified domain and of arbitrary ids
 		var id object.ObjMetadata
-		if strict {
+		if r.Intn(3) > 0 {
 			id = randDomainID(r)
 		} else {
 			id = randAnyID(r)
-			strict = inDomain(id)
+		}
+		if encodable(id) {
+			sum.Count("dep:encodable")
+		} else {
+			sum.Count("dep:not-encodable")
 		}
 		pl, pr := "", ""
 		if r.Intn(3) == 0 {
 			pl, pr = randPad(r), randPad(r)
 		}
-		term, text := depCase(strict, id, pl, pr)
+		term, text := depCase(id, pl, pr)
 		if err := addDep(term, text, "dep:format-parse"); err != nil {
 			return nil, err
 		}
@@ -944,7 +982,6 @@ func Run(seed int64, tier, outDir string) (*emit.Summary, error) {
 		// sets
 		n := 1 + r.Intn(4)
 		var l []padded
-		allDomain := true
 		for j := 0; j < n; j++ {
 			var id object.ObjMetadata
 			if r.Intn(5) == 0 {
@@ -954,14 +991,13 @@ func Run(seed int64, tier, outDir string) (*emit.Summary, error) {
 			} else {
 				id = randDomainID(r)
 			}
-			allDomain = allDomain && inDomain(id)
 			pl, pr := "", ""
 			if r.Intn(3) == 0 {
 				pl, pr = randPad(r), randPad(r)
 			}
 			l = append(l, padded{pl, id, pr})
 		}
-		term, text = depSetCase(allDomain, l)
+		term, text = depSetCase(l)
 		if err := addDep(term, text, "dep:set-format-parse"); err != nil {
 			return nil, err
 		}
@@ -970,7 +1006,7 @@ func Run(seed int64, tier, outDir string) (*emit.Summary, error) {
 			for _, x := range l {
 				ids = append(ids, x.id)
 			}
-			term, text = annotCase(allDomain, ids)
+			term, text = annotCase(ids)
 			if err := addDep(term, text, "dep:annotation"); err != nil {
 				return nil, err
 			}
